@@ -318,7 +318,7 @@ func c11(c *Ctx) {
 		"client side: (status x content type x body {empty, valid, truncated, garbage, wrong format, huge}) served by a scripted upstream to the generated Go and TS clients; " +
 		"non-trivial = the request was sent to the race-instrumented server, and status, error body well-formedness, handler log and Covers(body, handler message) were evaluated / the client call returned within the watchdog"
 	c.R.Assume("Covers is deliberately narrow (known fields, scalar leaves, lenient proto3-JSON equality); unknown and duplicate keys are borderline: only no-panic/no-5xx is asserted for them")
-	feats := sampleFeats(c, corpus.Features(), 3)
+	feats := sampleFeats(c, corpus.Features(), 2)
 	fl, err := buildFeatureLab(c, "c11", feats, []variant{{Tag: "s", Plugins: []string{"go-http", "go-client"}}}, true, []string{"top"}, true)
 	if err != nil {
 		c.R.Harness(err.Error())
